@@ -13,10 +13,11 @@ Bool == {TRUE, FALSE}
 Spacings == {"preserve", "loose", "tight"}
 EPs == {"cli_file_stdout", "cli_file_inplace", "cli_file_inplace_nobackup", "cli_stdin_stdout", "cli_stdin_out", "cli_auto",
         "cli_multi_stdout", "cli_multi_inplace", "api_file_stdout", "api_file_inplace", "api_files_inplace", "api_text",
-        "err_no_input", "err_out_multi", "err_out_dir", "err_out_glob", "err_inplace_stdin"}
+        "err_no_input", "err_out_multi", "err_out_dir", "err_out_glob", "err_inplace_stdin", "err_inplace_file_stdin"}
 CliEPs == {e \in EPs : e \notin {"api_file_stdout", "api_file_inplace", "api_files_inplace", "api_text"}}
 \* "several files" is a property of the resolved list, not of argv: one directory or one glob argument that yields two files counts
-ErrEPs == {"err_no_input", "err_out_multi", "err_out_dir", "err_out_glob", "err_inplace_stdin"}
+\* a usage error is detected before ANY file is touched: --inplace with a file AND stdin must not format the file first
+ErrEPs == {"err_no_input", "err_out_multi", "err_out_dir", "err_out_glob", "err_inplace_stdin", "err_inplace_file_stdin"}
 VARIABLES u, ep, layer, o
 vars == <<u, ep, layer, o>>
 
